@@ -61,6 +61,16 @@ func genTokSpec(r *Rand, nCast int, label string, rich bool) TokSpec {
 		if r.Chance(0.3) {
 			d.Nbf = ptr(int64(r.Range(10, 1<<20)))
 		}
+		if r.Chance(0.1) {
+			// far bounds: beyond 2262 (where UnixNano wraps), year 9999
+			d.Exp, d.Relative = ptr(Pick(r, []int64{9467020800, 10413792000, 253402300799}) - simEpochUnix), false
+			if r.Chance(0.5) {
+				d.Nbf = ptr(Pick(r, []int64{9467020700, 10413791000}) - simEpochUnix)
+			}
+		}
+		if r.Chance(0.15) {
+			d.SubMilli = int64(r.Range(1, 999))
+		}
 		d.Relative = r.Chance(0.5)
 		d.NonceLen = []int{0, 0, 12, 16, 32}[r.Intn(5)]
 		d.Meta = genMeta(r)
@@ -80,7 +90,7 @@ func genTokSpec(r *Rand, nCast int, label string, rich bool) TokSpec {
 		v.Exp = ptr(int64(r.Range(10, 1<<30)))
 	}
 	v.Relative = r.Chance(0.5)
-	v.Iat = []string{"", "none", "past", "future"}[r.Intn(4)]
+	v.Iat = []string{"", "none", "past", "future", "zero", "epoch", "neg", "y9999", "y2300"}[r.Intn(9)]
 	v.NonceLen = []int{0, 0, 12, 16, 32}[r.Intn(5)]
 	v.Meta = genMeta(r)
 	v.Cause = r.Chance(0.2)
